@@ -381,6 +381,27 @@ example :
     (closeRun 2 s e).2.1.wc.out = #[.raw 0, .raw 7] := by
   decide
 
+/-- **write_pending_registered.** No lost wake-up on the write path: for every `W ≥ 1`, from every reachable writer
+state and for every behaviour of the carrier, `poll_write` answers `Pending` only if, in this very call, the encrypt
+buffer could not be drained because the inner `poll_write` answered `Pending` (the call that registered the caller's
+waker) — the claim of the comment at `if total_plaintext == 0` in the code; a socket that returned `Pending` on its own
+would never be polled again. (The same fact for `poll_flush` / `poll_close` is item 2 of the two theorems above.) -/
+theorem write_pending_registered {C : Type} (w : WireOps C) (F W : Nat) (hW : 1 ≤ W)
+    (s : WriteSock C) (c : WCarrier C) (frames : List Chunk) (wpos n : Nat)
+    (h : WSInv (realParams F W) w s c frames wpos)
+    (hp : (pollWrite (realParams F W) w s c wpos n).2.2 = .pending) :
+    (drain (drainFuel s) s c).2.2 = .blocked :=
+  pollWrite_pending_blocked (realParams F W) w (real_params_ok F W).1 hW s c wpos n h.inv hp
+
+/-- Non-vacuity: with `W = 1`, a full frame waiting in the encrypt buffer and a carrier that answers `Pending`, a second
+write is `Pending` (and the drain was `blocked`); hypotheses and conclusion on a small instance of the same shape. -/
+example :
+    let P : Params := { M := 20, TAG := 16, SNOWMAX := 20, T := 16, F := 1, W := 1 }
+    let s : WriteSock TCell := ⟨Array.replicate 22 (.raw 0), .writing 0 22, 1⟩
+    (pollWrite P (termWire 16) s ⟨#[], [.pend]⟩ 4 4).2.2 = .pending ∧
+    (drain (drainFuel s) s ⟨#[], [.pend]⟩).2.2 = .blocked := by
+  decide
+
 #print axioms term_model_laws
 #print axioms real_params_ok
 #print axioms write_total_old_constant_witness
@@ -394,5 +415,6 @@ example :
 #print axioms write_read_roundtrip
 #print axioms flush_delivers_everything_accepted
 #print axioms close_delivers_everything_accepted
+#print axioms write_pending_registered
 
 end Litep2pVerif.Props.C02
